@@ -242,11 +242,371 @@ Proof.
   all: try (exists None; cbn; repeat split; auto; try discriminate; intros y; unfold QQ, cqcount; gts; cbn; lia).
   - (* deq *) exists None. cbn. repeat split; auto; try discriminate. intros y. unfold QQ, cqcount. gts.
     rewrite H. cbn. lia.
-  - (* push *) exists (Some x). cbn. repeat split; auto.
-    + exists thx, k. auto.
+  - (* push *) exists (Some x). cbn. split; [split; [assumption|exists thx, k; auto]|].
+    split; [reflexivity|]. split; [reflexivity|]. split; [|split; [left; reflexivity|]].
     + intros x0 E. inv E. rewrite Nat.eqb_refl. cbn. lia.
-    + intros y. unfold QQ, cqcount. gts. lia.
-  - (* push self *) exists None. cbn. repeat split; auto; try discriminate.
+    + intros y. unfold QQ, cqcount, qcount. gts. lia.
+  - (* push self *) exists None. cbn. split; [reflexivity|].
+    split; [reflexivity|]. split; [reflexivity|]. split; [discriminate|split].
     + right. rewrite Nat.eqb_refl. cbn. lia.
     + intros y. rewrite H. unfold selfn. cbn. destruct (Nat.eqb t y); cbn; lia.
 Qed.
+
+Lemma Inv2_init s : finit s -> Inv2 s.
+Proof.
+  intros [nt ->]. split; cbn.
+  - reflexivity.
+  - intros x. unfold occ, ENQ, SUSP, hands, cqcount, get_thread, init_state; cbn.
+    rewrite sumf_repeat by reflexivity.
+    destruct (nth_error (repeat thread0 nt) x) as [th|] eqn:E; [|reflexivity].
+    apply nth_error_repeat in E. subst. reflexivity.
+  - intros [|[|c]] y H; cbn in H; try contradiction. destruct c; contradiction.
+  - intros t th c unl H. apply nth_error_repeat in H. subst. cbn. contradiction.
+Qed.
+
+Lemma hand_cbs_next l i u r y : nth_error l i = Some (CbUnl u) ->
+  (sumf (fun c => cb_hand c y) (cbs_next l i r) + upc_hand u y
+   = sumf (fun c => cb_hand c y) l + ures_hand r y)%nat.
+Proof.
+  intros H. destruct r as [u'|nf]; cbn [cbs_next ures_hand].
+  - apply (sumf_upd (fun c => cb_hand c y) _ _ _ (CbUnl u') H).
+  - pose proof (sumf_remove_nth (fun c => cb_hand c y) _ _ _ H) as X. cbn in X |- *. lia.
+Qed.
+
+Lemma enq_cbs_next l i u r : nth_error l i = Some (CbUnl u) -> sumf cb_enq (cbs_next l i r) = sumf cb_enq l.
+Proof.
+  intros H. destruct r as [u'|nf]; cbn [cbs_next].
+  - pose proof (sumf_upd cb_enq _ _ _ (CbUnl u') H) as X. cbn in X. lia.
+  - pose proof (sumf_remove_nth cb_enq _ _ _ H) as X. cbn in X. lia.
+Qed.
+
+Lemma in_upd {A} (l : list A) i x y : In y (upd l i x) -> y = x \/ In y l.
+Proof.
+  revert i. induction l as [|a l IH]; intros [|i] H; cbn in *; try tauto.
+  - destruct H as [H|H]; auto.
+  - destruct H as [H|H]; auto. destruct (IH _ H); auto.
+Qed.
+
+Lemma in_remove_nth {A} (l : list A) i y : In y (remove_nth l i) -> In y l.
+Proof.
+  revert i. induction l as [|a l IH]; intros [|i] H; cbn in *; try tauto.
+  destruct H as [H|H]; auto. right. eapply IH; eauto.
+Qed.
+
+Lemma in_cbs_next l i r c unl : In (CbEnq c unl) (cbs_next l i r) -> In (CbEnq c unl) l.
+Proof.
+  destruct r as [u'|nf]; cbn [cbs_next]; intros H.
+  - apply in_upd in H. destruct H as [H|H]; [discriminate|exact H].
+  - eapply in_remove_nth; eauto.
+Qed.
+
+Lemma fe_pc_sigdeq c k : fe_pc (SigDeq c k) = true -> (c < 2)%nat.
+Proof. unfold fe_pc. intros P. apply andb_prop in P. destruct P as [P _]. apply Nat.ltb_lt in P. exact P. Qed.
+Lemma fe_cb_qc c unl : fe_cb (CbEnq (QC c) unl) = true -> (c < 2)%nat /\ unl = true.
+Proof. unfold fe_cb. intros P. apply andb_prop in P. destruct P as [Q P]. apply Nat.ltb_lt in P. auto. Qed.
+
+Ltac inv2_simple I2 Hth :=
+  eapply (Inv2_update _ _ _ _ _ None I2 Hth);
+  [ cbn; gts; reflexivity
+  | gts; apply (i2_len _ I2)
+  | intros y; unfold QQ, cqcount, th_hand, nenq, selfn; gts;
+    repeat match goal with H : main _ = _ |- _ => rewrite H end;
+    cbn; destruct (Nat.eqb _ y); lia
+  | discriminate
+  | first [ left; reflexivity
+          | right; left; match goal with H : main _ = _ |- _ => rewrite H end; reflexivity ]
+  | intros cc yy Hin; left; gts; exact Hin
+  | intros cc uu Hin; left; gts; exact Hin ].
+
+Lemma Inv2_step s t e s' : Inv1 s -> Inv2 s -> fstep s (t, e) = Some s' -> Inv2 s'.
+Proof.
+  intros I1 I2 H. destruct (fstep_thread _ _ _ _ H) as [th Hth].
+  pose proof (i1_thr _ I1 _ _ Hth) as T.
+  pose proof (step_srel _ _ _ _ _ Hth (t1_pc _ T) H) as R. clear H.
+  inversion R; subst; clear R.
+  all: try solve [inv2_simple I2 Hth].
+  - (* cas1_ok *) destruct k; cbn [acquired]; inv2_simple I2 Hth.
+  - (* cas2_ok *)
+    eapply (Inv2_update _ _ _ _ _ None I2 Hth).
+    + cbn; gts; reflexivity.
+    + gts; apply (i2_len _ I2).
+    + intros y; unfold QQ, cqcount, th_hand, nenq, selfn; gts. rewrite sumf_app, sumf_app.
+      match goal with H : main _ = _ |- _ => rewrite H end. cbn. destruct (Nat.eqb _ y); lia.
+    + discriminate.
+    + right; left. match goal with H : main _ = _ |- _ => rewrite H end. reflexivity.
+    + intros c y Hin; left; gts; exact Hin.
+    + intros c unl Hin. left. gts. apply in_app_or in Hin. destruct Hin as [Hin|[Hin|[]]]; [exact Hin|discriminate].
+  - (* unl *)
+    match goal with U : urel _ _ _ _ _ _ _ |- _ =>
+      destruct (urel_sl _ _ _ _ _ _ _ U Hth) as (wk & W & Hcbs & Hcq & Hwk & _ & Rq);
+      pose proof (urel_own _ _ _ _ _ _ _ U) as Hm end.
+    assert (Hm1 : main th1 = Unl u) by (destruct Hm as [E|(k & E & _)]; congruence).
+    eapply (Inv2_update _ _ _ _ _ wk I2 Hth W).
+    + rewrite Hcq. apply (i2_len _ I2).
+    + intros y. specialize (Rq y). unfold th_hand, nenq. gts. rewrite Hcbs, H, Hm1 in *.
+      assert (E1 : pc_hand (upc_next r) y = ures_hand r y) by (destruct r; reflexivity).
+      assert (E2 : is_susp (upc_next r) = false) by (destruct r; reflexivity).
+      rewrite E1, E2. cbn [pc_hand is_susp b2n] in *. unfold selfn in *. destruct (Nat.eqb t y); lia.
+    + intros x E. specialize (Hwk x E). unfold th_hand. rewrite H. cbn. lia.
+    + right; left. rewrite H. reflexivity.
+    + intros c y Hin. left. rewrite Hcq in Hin. exact Hin.
+    + intros c unl Hin. left. gts. rewrite Hcbs in Hin. exact Hin.
+  - (* sigdeq *)
+    assert (Hc : (c < List.length (cqs s))%nat).
+    { rewrite (i2_len _ I2). pose proof (t1_pc _ T) as P. rewrite H in P. eapply fe_pc_sigdeq; eauto. }
+    cbn [getq] in H0.
+    eapply (Inv2_update _ _ _ _ _ None I2 Hth).
+    + cbn; gts; reflexivity.
+    + gts. rewrite length_upd. apply (i2_len _ I2).
+    + intros y. pose proof (cqcount_setq s c r y Hc) as E. rewrite H0 in E. unfold qcount in E. cbn in E.
+      unfold QQ, th_hand, nenq, selfn. gts. rewrite H. cbn. unfold cqcount, qcount in *. destruct (Nat.eqb t y); lia.
+    + discriminate.
+    + right; left. rewrite H. reflexivity.
+    + intros cc yy Hin. left. gts. destruct (Nat.eq_dec c cc) as [->|Hne].
+      * rewrite nth_upd_same in Hin by exact Hc. rewrite H0. right. exact Hin.
+      * rewrite nth_upd_other in Hin by exact Hne. exact Hin.
+    + intros cc uu Hin; left; gts; exact Hin.
+  - (* sigpush *)
+    eapply (Inv2_update _ _ _ _ _ (Some x) I2 Hth).
+    + cbn. split; [assumption|]. exists thx, k. gts. auto.
+    + gts. apply (i2_len _ I2).
+    + intros y. unfold QQ, cqcount, th_hand, nenq, selfn. gts. rewrite H. cbn. destruct (Nat.eqb t y); lia.
+    + intros x0 E. inv E. unfold th_hand. rewrite H. cbn. rewrite Nat.eqb_refl. cbn. lia.
+    + right; left. rewrite H. reflexivity.
+    + intros cc yy Hin; left; gts; exact Hin.
+    + intros cc uu Hin; left; gts; exact Hin.
+  - (* feread_wait *)
+    pose proof (t1_pc _ T) as P. rewrite H in P. cbn in P. destruct (valid_st_idx _ P) as [_ Hidx].
+    eapply (Inv2_update _ _ _ _ _ None I2 Hth).
+    + cbn; gts; reflexivity.
+    + gts; apply (i2_len _ I2).
+    + intros y; unfold QQ, cqcount, th_hand, nenq, selfn; gts. rewrite sumf_app, sumf_app.
+      rewrite H. cbn. destruct (Nat.eqb _ y); lia.
+    + discriminate.
+    + right; left. rewrite H. reflexivity.
+    + intros cc yy Hin; left; gts; exact Hin.
+    + intros cc uu Hin. gts. apply in_app_or in Hin. destruct Hin as [Hin|[Hin|[]]]; [left; exact Hin|].
+      right. inv Hin. rewrite Hidx. reflexivity.
+  - (* cbenq *)
+    pose proof (nbadcb_nth _ _ _ H (t1_cb _ T)) as Hfe.
+    set (L' := if unl then upd (cbs th) i (CbUnl (URead 0)) else remove_nth (cbs th) i).
+    assert (Le : (sumf cb_enq L' + 1 = sumf cb_enq (cbs th))%nat).
+    { subst L'. destruct unl.
+      - pose proof (sumf_upd cb_enq _ _ _ (CbUnl (URead 0)) H) as X. cbn in X. lia.
+      - pose proof (sumf_remove_nth cb_enq _ _ _ H) as X. cbn in X. lia. }
+    assert (Lh : forall y, sumf (fun c => cb_hand c y) L' = sumf (fun c => cb_hand c y) (cbs th)).
+    { intros y. subst L'. destruct unl.
+      - pose proof (sumf_upd (fun c => cb_hand c y) _ _ _ (CbUnl (URead 0)) H) as X. cbn in X. lia.
+      - pose proof (sumf_remove_nth (fun c => cb_hand c y) _ _ _ H) as X. cbn in X. lia. }
+    assert (Li : forall cc uu, In (CbEnq cc uu) L' -> In (CbEnq cc uu) (cbs th)).
+    { intros cc uu Hin. subst L'. destruct unl.
+      - apply in_upd in Hin. destruct Hin as [Hin|Hin]; [discriminate|exact Hin].
+      - eapply in_remove_nth; eauto. }
+    clearbody L'.
+    destruct q as [|c].
+    + eapply (Inv2_update _ _ _ _ _ None I2 Hth).
+      * cbn; gts; reflexivity.
+      * gts. apply (i2_len _ I2).
+      * intros y. unfold QQ, cqcount, th_hand, nenq, selfn. gts. cbn [getq]. rewrite qcount_app, Lh.
+        unfold qcount. cbn. destruct (Nat.eqb t y); cbn; lia.
+      * discriminate.
+      * left; reflexivity.
+      * intros cc yy Hin; left; gts; exact Hin.
+      * intros cc uu Hin. left. gts. apply Li. exact Hin.
+    + destruct (fe_cb_qc _ _ Hfe) as [Hc2 ->].
+      assert (Hc : (c < List.length (cqs s))%nat) by (rewrite (i2_len _ I2); exact Hc2).
+      eapply (Inv2_update _ _ _ _ _ None I2 Hth).
+      * cbn; gts; reflexivity.
+      * gts. rewrite length_upd. apply (i2_len _ I2).
+      * intros y. pose proof (cqcount_setq s c (getq s (QC c) ++ [t]) y Hc) as E. cbn [getq] in E.
+        rewrite qcount_app in E.
+        unfold QQ, th_hand, nenq, selfn. gts. cbn [getq]. rewrite Lh.
+        unfold qcount in *. cbn in E |- *. destruct (Nat.eqb t y); cbn in *; lia.
+      * discriminate.
+      * left; reflexivity.
+      * intros cc yy Hin. gts. cbn [getq] in Hin. destruct (Nat.eq_dec c cc) as [->|Hne].
+        -- rewrite nth_upd_same in Hin by exact Hc. apply in_app_or in Hin.
+           destruct Hin as [Hin|[<-|[]]]; [left; exact Hin|]. right. split; [reflexivity|].
+           gts. eapply (i2_enq _ I2 _ _ _ _ Hth). eapply nth_error_In. exact H.
+        -- rewrite nth_upd_other in Hin by exact Hne. left. exact Hin.
+      * intros cc uu Hin. left. gts. apply Li. exact Hin.
+  - (* cbunl *)
+    match goal with U : urel _ _ _ _ _ _ _ |- _ =>
+      destruct (urel_sl _ _ _ _ _ _ _ U Hth) as (wk & W & Hcbs & Hcq & Hwk & Hm & Rq);
+      pose proof (urel_own _ _ _ _ _ _ _ U) as Hm' end.
+    assert (Hle : forall x, (upc_hand u x <= th_hand th x)%nat).
+    { intros x. pose proof (sumf_nth_le (fun c => cb_hand c x) _ _ _ H) as X. cbn in X. unfold th_hand. lia. }
+    eapply (Inv2_update _ _ _ _ _ wk I2 Hth W).
+    + rewrite Hcq. apply (i2_len _ I2).
+    + intros y. specialize (Rq y). unfold th_hand, nenq. gts. rewrite Hcbs.
+      pose proof (hand_cbs_next _ _ _ r y H) as E1. rewrite (enq_cbs_next _ _ _ r H).
+      assert (E2 : pc_hand (main th1) y = pc_hand (main th) y).
+      { destruct Hm' as [->|(k & A & ->)]; [reflexivity|]. rewrite A. reflexivity. }
+      rewrite E2. unfold selfn in *. destruct (Nat.eqb t y); lia.
+    + intros x E. specialize (Hwk x E). specialize (Hle x). lia.
+    + unfold main_ok. gts. destruct Hm as [E|E]; [left; exact E|]. right; right. specialize (Hle t). lia.
+    + intros c y Hin. left. rewrite Hcq in Hin. exact Hin.
+    + intros c unl Hin. left. gts. rewrite Hcbs in Hin. eapply in_cbs_next; eauto.
+Qed.
+
+Lemma Inv12_reach s : freach s -> Inv1 s /\ Inv2 s.
+Proof.
+  revert s. apply (@invariant_rule _ _ finit fstep (fun s => Inv1 s /\ Inv2 s)).
+  - intros s0 H. split; [apply Inv1_init|apply Inv2_init]; exact H.
+  - intros s0 [t e] s1 [A B] H. split; [eapply Inv1_step|eapply Inv2_step]; eauto.
+Qed.
+
+(* ------------------------------------------------------------------------------------------ *)
+(** * 4. status invariants *)
+
+Record Inv3 (s : state) : Prop := {
+  i3_st : festat s = 0 \/ festat s = 1;
+  (** a waiter enqueues on cond[c] only while status <> c *)
+  i3_enq : forall t th c unl, get_thread s t = Some th -> In (CbEnq (QC c) unl) (cbs th) ->
+           festat s <> Z.of_nat c;
+  (** the writer signals the queue of the status it wrote *)
+  i3_sig : forall t th c, get_thread s t = Some th -> main th = SigDeq c ASUnlock ->
+           festat s = Z.of_nat c }.
+
+Lemma Inv3_init s : finit s -> Inv3 s.
+Proof.
+  intros [nt ->]. split; cbn; auto.
+  - intros t th c unl H. apply nth_error_repeat in H. subst. cbn. contradiction.
+  - intros t th c H. apply nth_error_repeat in H. subst. cbn. discriminate.
+Qed.
+
+Lemma Inv3_update s s' t th th' :
+  Inv3 s -> get_thread s t = Some th -> get_thread s' t = Some th' -> framed s s' t ->
+  festat s' = festat s ->
+  (forall c unl, In (CbEnq (QC c) unl) (cbs th') ->
+                 In (CbEnq (QC c) unl) (cbs th) \/ festat s <> Z.of_nat c) ->
+  (forall c, main th' = SigDeq c ASUnlock -> main th = SigDeq c ASUnlock) ->
+  Inv3 s'.
+Proof.
+  intros I Hth Hth' F Hf Hcb Hm. split.
+  - rewrite Hf. apply (i3_st _ I).
+  - intros u thu c unl G Hin. rewrite Hf. destruct (Nat.eq_dec u t) as [->|Hu].
+    + rewrite Hth' in G. inv G. destruct (Hcb _ _ Hin) as [Hold|Hne]; [|exact Hne].
+      eapply (i3_enq _ I); eauto.
+    + destruct (F u Hu) as [E|(thu0 & k & A & B & C)].
+      * rewrite E in G. eapply (i3_enq _ I); eauto.
+      * rewrite C in G. inv G. cbn in Hin. eapply (i3_enq _ I); eauto.
+  - intros u thu c G M. rewrite Hf. destruct (Nat.eq_dec u t) as [->|Hu].
+    + rewrite Hth' in G. inv G. eapply (i3_sig _ I); eauto.
+    + destruct (F u Hu) as [E|(thu0 & k & A & B & C)].
+      * rewrite E in G. eapply (i3_sig _ I); eauto.
+      * rewrite C in G. inv G. cbn in M. discriminate.
+Qed.
+
+Lemma urel_festat s t th u s1 th1 r : urel s t th u s1 th1 r -> festat s1 = festat s.
+Proof. intros U; inv U; gts; reflexivity. Qed.
+
+Lemma nclear_in l c : In c l -> cb_clears c = true -> (1 <= nclear l)%nat.
+Proof.
+  unfold nclear. induction l as [|a l IH]; cbn; intros H E; [contradiction|].
+  destruct H as [->|H]; [rewrite E; cbn; lia|]. specialize (IH H E). lia.
+Qed.
+
+(** a thread with a pending enqueue on a condition queue still owns the lock and is on the lock path *)
+Lemma cbenq_owner th c unl : tinv1 th -> In (CbEnq (QC c) unl) (cbs th) ->
+  own th = true /\ lockpath (main th) = true /\ (c < 2)%nat.
+Proof.
+  intros T Hin.
+  assert (Hfe : fe_cb (CbEnq (QC c) unl) = true).
+  { pose proof (sumf_zero_in _ _ _ (t1_cb _ T) Hin) as Z. cbn beta in Z.
+    destruct (fe_cb (CbEnq (QC c) unl)); [reflexivity|discriminate]. }
+  destruct (fe_cb_qc _ _ Hfe) as [Hc ->].
+  pose proof (nclear_in _ _ Hin eq_refl) as N. pose proof (t1_le _ T).
+  destruct (t1_cbown _ T) as [A B]; [lia|]. auto.
+Qed.
+
+Ltac inv3_simple I3 Hth F :=
+  eapply (Inv3_update _ _ _ _ _ I3 Hth); [apply get_same; gts; congruence|exact F|gts; reflexivity
+  | intros cc uu Hin; left; gts; exact Hin
+  | intros cc Hm; gts; try discriminate; try exact Hm ].
+
+Lemma Inv3_step s t e s' : Inv1 s -> Inv3 s -> fstep s (t, e) = Some s' -> Inv3 s'.
+Proof.
+  intros I1 I3 H. destruct (fstep_thread _ _ _ _ H) as [th Hth].
+  pose proof (i1_thr _ I1 _ _ Hth) as T.
+  pose proof (step_srel _ _ _ _ _ Hth (t1_pc _ T) H) as R. clear H.
+  pose proof (srel_frame _ _ _ _ _ R Hth) as F.
+  inversion R; subst; clear R.
+  all: try solve [inv3_simple I3 Hth F].
+  - (* cas1_ok *) destruct k; cbn [acquired] in *; inv3_simple I3 Hth F.
+  - (* cas2_ok *)
+    eapply (Inv3_update _ _ _ _ _ I3 Hth); [apply get_same; gts; congruence|exact F|gts; reflexivity| |].
+    + intros cc uu Hin. left. gts. apply in_app_or in Hin. destruct Hin as [Hin|[Hin|[]]]; [exact Hin|discriminate].
+    + intros cc Hm. gts. discriminate.
+  - (* unl *)
+    match goal with U : urel _ _ _ _ _ _ _ |- _ =>
+      destruct (urel_frame _ _ _ _ _ _ _ U Hth) as [G1 _];
+      pose proof (urel_festat _ _ _ _ _ _ _ U) as Hf;
+      assert (Hcbs : cbs th1 = cbs th) by (inv U; reflexivity) end.
+    eapply (Inv3_update _ _ _ _ _ I3 Hth); [apply get_same; congruence|exact F|gts; exact Hf| |].
+    + intros cc uu Hin. left. gts. rewrite Hcbs in Hin. exact Hin.
+    + intros cc Hm. gts. destruct r; discriminate.
+  - (* sigpush *)
+    eapply (Inv3_update _ _ _ _ _ I3 Hth);
+      [apply get_same; rewrite get_other by auto; congruence|exact F|gts; reflexivity| |].
+    + intros cc uu Hin; left; gts; exact Hin.
+    + intros cc Hm. gts. discriminate.
+  - (* feread_wait *)
+    pose proof (t1_pc _ T) as P. rewrite H in P. cbn in P. destruct (valid_st_idx _ P) as [_ Hidx].
+    eapply (Inv3_update _ _ _ _ _ I3 Hth); [apply get_same; gts; congruence|exact F|gts; reflexivity| |].
+    + intros cc uu Hin. gts. apply in_app_or in Hin. destruct Hin as [Hin|[Hin|[]]]; [left; exact Hin|].
+      right. inv Hin. rewrite Hidx. assumption.
+    + intros cc Hm. gts. discriminate.
+  - (* fewrite *)
+    pose proof (t1_pc _ T) as P. rewrite H in P. cbn in P. destruct (valid_st_idx _ P) as [_ Hidx].
+    assert (Ho : own th = true) by (apply (t1_need _ T); rewrite H; reflexivity).
+    assert (Huniq : forall u thu, get_thread s u = Some thu -> own thu = true -> u = t).
+    { intros u thu G O. eapply (i1_uniq _ I1); eauto. }
+    assert (Hfr : forall u thu', u <> t ->
+              get_thread (set_thread (set_festat s st) t (set_main th (SigDeq (Z.to_nat st) ASUnlock))) u = Some thu' ->
+              exists thu, get_thread s u = Some thu /\ cbs thu' = cbs thu /\
+                          (main thu' = main thu \/ exists k, main thu' = LockRead k)).
+    { intros u thu' Hu G. destruct (F u Hu) as [E|(thu0 & k & A & B & C)].
+      - rewrite E in G. exists thu'. auto.
+      - rewrite C in G. inv G. exists thu0. cbn. eauto. }
+    split.
+    + gts. apply valid_st_cases. exact P.
+    + intros u thu c unl G Hin. exfalso. destruct (Nat.eq_dec u t) as [->|Hu].
+      * rewrite get_same in G by (gts; congruence). inv G. cbn in Hin.
+        destruct (cbenq_owner _ _ _ T Hin) as (_ & L & _). rewrite H in L. discriminate.
+      * destruct (Hfr _ _ Hu G) as (thu0 & A & B & _). rewrite B in Hin.
+        destruct (cbenq_owner _ _ _ (i1_thr _ I1 _ _ A) Hin) as (O & _ & _). apply Hu. eauto.
+    + intros u thu c G M. gts. destruct (Nat.eq_dec u t) as [->|Hu].
+      * rewrite get_same in G by (gts; congruence). inv G. cbn in M. inv M. symmetry. exact Hidx.
+      * exfalso. destruct (Hfr _ _ Hu G) as (thu0 & A & _ & [B|(k & B)]); [|congruence].
+        apply Hu. eapply Huniq; eauto. apply (t1_need _ (i1_thr _ I1 _ _ A)). rewrite <- B, M. reflexivity.
+  - (* cbenq *)
+    eapply (Inv3_update _ _ _ _ _ I3 Hth); [apply get_same; gts; congruence|exact F|gts; reflexivity| |].
+    + intros cc uu Hin. left. gts. destruct unl.
+      * apply in_upd in Hin. destruct Hin as [Hin|Hin]; [discriminate|exact Hin].
+      * eapply in_remove_nth; eauto.
+    + intros cc Hm. gts. exact Hm.
+  - (* cbunl *)
+    match goal with U : urel _ _ _ _ _ _ _ |- _ =>
+      destruct (urel_frame _ _ _ _ _ _ _ U Hth) as [G1 _];
+      pose proof (urel_festat _ _ _ _ _ _ _ U) as Hf;
+      pose proof (urel_own _ _ _ _ _ _ _ U) as Hm';
+      assert (Hcbs : cbs th1 = cbs th) by (inv U; reflexivity) end.
+    eapply (Inv3_update _ _ _ _ _ I3 Hth); [apply get_same; congruence|exact F|gts; exact Hf| |].
+    + intros cc uu Hin. left. gts. rewrite Hcbs in Hin. eapply in_cbs_next; eauto.
+    + intros cc Hm. gts. destruct Hm' as [E|(k & A & E)]; congruence.
+Qed.
+
+Record Inv (s : state) : Prop := { inv_1 : Inv1 s; inv_2 : Inv2 s; inv_3 : Inv3 s }.
+
+Lemma Inv_init s : finit s -> Inv s.
+Proof. intros H. split; [apply Inv1_init|apply Inv2_init|apply Inv3_init]; exact H. Qed.
+
+Lemma Inv_step s a s' : Inv s -> fstep s a = Some s' -> Inv s'.
+Proof.
+  intros [A B C] H. destruct a as [t e].
+  split; [eapply Inv1_step|eapply Inv2_step|eapply Inv3_step]; eauto.
+Qed.
+
+Lemma Inv_reach s : freach s -> Inv s.
+Proof. apply invariant_rule; [apply Inv_init|apply Inv_step]. Qed.
